@@ -269,7 +269,28 @@ def run(F, R, tier):
                 use = c01.result_use(body, bi)
                 r3.site("%s::insert: from_str result %s" % (L.short(ty), use), t["sp"])
                 r3.require(use in ("propagated", "returned"), (fn, "alg-parse-result", use), "the result of parsing the alg is %s instead of being propagated" % use, t["sp"])
-    r3.floor(3)
+    # the key-type classification insert relies on: Ok(Ed25519) only for an OKP key whose curve was decided to be Ed25519, Ok(BLS12381G2)
+    # only for an EC key whose curve was decided to be BLS12381G2 — every other kty / curve is an error (no "any Ed curve will do")
+    kfns = F.find(r"MemStoreKeyType as core::convert::TryFrom<&.*Jwk>>::try_from$")
+    if r3.require(len(kfns) == 1, (JMS, "key-type", "ANCHOR"), "TryFrom<&Jwk> for MemStoreKeyType not found"):
+        kfn = kfns[0]
+        tabk = SR.Table(F, kfn, opaque=r"try_okp_params$|try_ed_curve$|try_ec_params$|try_ec_curve$|try_bls_curve$|KeyStorageError::\w+$", rule=r3)
+        WANT = {"Ed25519": ("Okp", r"try_ed_curve$"), "BLS12381G2": ("Ec", r"try_bls_curve$")}
+        seen = set()
+        for q in tabk.ok():
+            r_ = sym.term(q.ret)
+            name = r_[2][1] if r_[:2] == ("ctor", "Ok") and len(r_) > 2 and isinstance(r_[2], tuple) and r_[2][:1] == ("ctor",) else None
+            if not r3.require(name in WANT, (kfn, "key-type", "result"), "MemStoreKeyType::try_from returns %s" % sym.fmt(r_)[:80]):
+                continue
+            kty, cpat = WANT[name]
+            kty_ok = any(v == kty and isinstance(t_, tuple) and t_[:1] == ("field",) and t_[-1] == "kty" for t_, v in q.variant.items())
+            crv_ok = any(v == name and isinstance(t_, tuple) and t_[:1] == ("payload",) and isinstance(t_[1], tuple) and t_[1][:1] == ("call",) and re.search(cpat, t_[1][1])
+                         for t_, v in q.variant.items())
+            seen.add(name)
+            r3.require(kty_ok and crv_ok, (kfn, "key-type", name), "MemStoreKeyType::try_from answers %s on a path that has not established kty = %s and curve = %s — path: %s" % (name, kty, name, q.describe()[:220]))
+        r3.site("MemStoreKeyType::try_from: %s each only for its own kty and curve" % sorted(seen))
+        r3.require(seen == set(WANT) or not tabk.paths, (kfn, "key-type", "rows"), "MemStoreKeyType::try_from does not show accepting rows for %s: %s" % (sorted(WANT), sorted(seen)))
+    r3.floor(4)
 
     # ------------------------------------------------------------------ R4 the stores against a map model
     r4 = R.rule("C15-R4", "T8+T4", "the mem stores evaluated abstractly on a concrete map {k0→v0, k1→v1}: insert_key_id refuses a present key and adds exactly (key, value) otherwise; get_key_id/delete_key_id/delete/sign report KeyIdNotFound/KeyNotFound for an absent id and otherwise use/remove exactly the entry stored under it; exists answers membership; nothing else in the map changes; the Stronghold key-id store reports a missing id")
